@@ -79,7 +79,11 @@ def run(ctx):
                     per[r["sys"]][r["tid"]] += 1
             _rmtree(o["_run"]["root"]); os.unlink(o["_run"]["trace"])
             if o["exit"] != 0:
-                raise ToolError("C04 profiling run failed: %s" % o["_run"]["stderr"][-300:])
+                # the fault-free run of the campaign's own scenario fails: a behaviour of the program under test (not of the tooling),
+                # and no silent failure either; the campaign goes on with the calls seen up to that point
+                ctx.drift.append({"id": "c04-prof-%s-%d" % (drv, w), "exit": o["exit"], "model_expect_ok": True, "stderr": o["_run"]["stderr"][-300:]})
+                from ..common import log
+                log("MODEL-DRIFT: the fault-free run of C04's scenario exits %d (%s, workers=%d)" % (o["exit"], drv, w))
             counts = {s: max(c.values()) for s, c in per.items()}
             profiles["%s/w%d" % (drv, w)] = counts
             for sysc, errs in ERRNOS.items():
